@@ -39,18 +39,27 @@ Definition soi_cases_of (mEdE mdEE : B) (dEE EdE dEdE dt : T) : Cc :=
   (* case 1 : (frc1 - frc2)/EdE *)
   let case1 := cdivr Op (csub Op frc1 frc2) EdE in
   (* case 2 : exp_buf := (exp_buf + 1)*dt ; frc1.real += exp_buf.imag ;
-     frc1.imag -= exp_buf.real ; frc1 /= dEE *)
+     frc1.imag -= exp_buf.real ; frc1 /= dEE   (= the value at EdE = 0), then to first order in EdE:
+     exp_buf := (exp_buf*dt - 2*frc1)/(2*dEE) ; value = frc1 + exp_buf*EdE                       (a13e2c1) *)
   let e := cadd Op (em1 dEE dt) (c1 Op) in
   let ex := (omul Op (fst e) dt, omul Op (snd e) dt) in
-  let case2 := cdivr Op (oadd Op (fst frc1) (snd ex), osub Op (snd frc1) (fst ex)) dEE in
-  (* case 3 : dt**2/2 *)
-  let case3 := (odiv Op (omul Op dt dt) (o2 Op), o0 Op) in
+  let i0 := cdivr Op (oadd Op (fst frc1) (snd ex), osub Op (snd frc1) (fst ex)) dEE in
+  let two := o2 Op in
+  let slope := cdivr Op (csub Op (omul Op (fst ex) dt, omul Op (snd ex) dt) (cscal Op two i0)) (omul Op two dEE) in
+  let case2 := cadd Op i0 (omul Op (fst slope) EdE, omul Op (snd slope) EdE) in
+  (* case 3 : dt**2/2 + 1j*dt**3*(dEE/3 + EdE/6) *)
+  let three := oadd Op two (o1 Op) in
+  let six := omul Op two three in
+  let case3 := (odiv Op (omul Op dt dt) two,
+                omul Op (omul Op (omul Op dt dt) dt) (oadd Op (odiv Op dEE three) (odiv Op EdE six))) in
   cite Op mEdE case1 (cite Op mdEE case2 case3).
 
-(* the code: case 1 where |EdE dt| > thr2 ; case 2 where |EdE dt| <= thr2 < |dEE dt| ; case 3 otherwise *)
+(* the code: case 1 where |EdE dt| > thr2 ; case 2 (first order in EdE) where |EdE dt| <= thr2 < |dEE dt| ;
+   case 3 (first order in both) otherwise *)
 Definition soi_core (thr2 dEE EdE dEdE dt : T) : Cc :=
   soi_cases_of (big thr2 EdE dt) (big thr2 dEE dt) dEE EdE dEdE dt.
-(* mathematical reference (the selection by exact zeros of the code before c3a36ea): the exact integral *)
+(* mathematical reference (selection by exact zeros, as in the code before c3a36ea; the first-order terms then
+   vanish): the exact integral *)
 Definition soi_core_x (dEE EdE dEdE dt : T) : Cc :=
   soi_cases_of (nz EdE) (nz dEE) dEE EdE dEdE dt.
 
